@@ -35,7 +35,7 @@ func (d *Dir) Add(c ...*Dir) *Dir {
 	return d
 }
 
-func bare(s string) Param   { return Param{Text: s, NoQuote: true} }
+func bare(s string) Param   { return Param{Text: s} } // may be quoted by the layout: quoting a bare parameter is insignificant
 func quoted(s string) Param { return Param{Text: s, MustQuote: true} }
 
 // textParam chooses the quoting constraints of a free-text parameter.
